@@ -1364,7 +1364,7 @@ def run(ctx):
     impl.basic.load_metadata()
     if ctx.tier == "quick":
         thys = QUICK_THEORIES
-        budget, rate = 60, 0.5
+        budget, rate = 60, 0.8
     else:
         allthys = sorted(impl.basic.theory_cache["master"].keys())
         thys = library_order(impl, allthys)
@@ -1766,13 +1766,13 @@ class FamGen:
 
 GEN_FAMILIES = [
     # (family, theory to load, method, cases quick, cases thorough)
-    ("nat-arith", "hoare", "nat_arith", 120, 1500),
-    ("int-real-arith", "real", "int_real_arith", 60, 600),
-    ("fun-upd", "hoare", "fun_upd", 60, 500),
-    ("avalI", "expr", "avalI", 60, 500),
-    ("conj-disj", "hoare", "conj_disj", 150, 2000),
-    ("resolution", "hoare", "resolution", 100, 1500),
-    ("basic-logic", "hoare", "basic_logic", 40, 400),
+    ("nat-arith", "hoare", "nat_arith", 250, 2000),
+    ("int-real-arith", "real", "int_real_arith", 100, 800),
+    ("fun-upd", "hoare", "fun_upd", 120, 800),
+    ("avalI", "expr", "avalI", 120, 800),
+    ("conj-disj", "hoare", "conj_disj", 300, 3000),
+    ("resolution", "hoare", "resolution", 200, 2000),
+    ("basic-logic", "hoare", "basic_logic", 80, 600),
 ]
 
 
@@ -1838,7 +1838,7 @@ def verit_stream(ctx, impl, oracle, mut):
         return
     impl.cur = ("verit", None)
     mut.rng = ctx.rng("genmut:verit")
-    ncor, nmut = ctx.scale(12, 120), ctx.scale(2, 3)
+    ncor, nmut = ctx.scale(25, 150), ctx.scale(2, 3)
     import io
     import contextlib
     for rule in sorted(GEN):
